@@ -168,11 +168,12 @@ theorem rHat_general (x : AxiExtra γ) (rn q : V3 γ) (R : γ)
       (2 * (q 0 * rn 0 * x.log (rn 0) + q 1 * rn 1 * x.log (rn 1) + q 2 * rn 2 * x.log (rn 2))) := by
   simp [rHat, h0, h1, h2, g0, g1, g2]
 
-/-- the axisymmetric solver scales the permeabilities of an in-plane lamination by the fill factor (no air term), unlike the
-    planar one (`lamMu`): recorded as the model has it -/
-theorem firstPassMuAxi_solid (bp : MBlockProp γ) (h : bp.lamType = 0) :
-    firstPassMuAxi bp = (bp.mux * bp.lamFill, bp.muy * bp.lamFill) := by
-  simp [firstPassMuAxi, h]
+/-- the axisymmetric solver gives an in-plane lamination the same parallel combination of iron and air as the planar one
+    (`lamMu`) — since the repair of `staticaxi.cpp` (it used to drop the air term `1 − t`, which the harmonic solvers and the
+    post-processor include; found by the vanishing-frequency pairs of C11) -/
+theorem firstPassMuAxi_inplane (bp : MBlockProp γ) (h : bp.lamType = 0) :
+    firstPassMuAxi bp = lamMu 0 bp.lamFill bp.mux bp.muy := by
+  simp [firstPassMuAxi, lamMu, h]
 
 end AxiThresholds
 
